@@ -283,8 +283,8 @@ def check_guard_wrapping(repo, chk):
         want = sorted([fnparam, ck.node.args.args[2].arg, "self.selector.hasval"])
         wrapped = [cs for cs, v, _ in rets if is_name(v, inner[0].name)]
         plain = [cs for cs, v, _ in rets if is_name(v, fnparam)]
-        ok = len(wrapped) == 1 and sorted(wrapped[0]) == want and len(wrapped) + len(plain) == len(rets) \
-            and all(len(cs) == 1 and cs[0].startswith("not (") and sorted(cs[0][5:-1].split(" and ")) == want for cs in plain)
+        # the wrapper is returned under exactly the three conditions; every other return (however the complement is split up) hands back the handler as it is
+        ok = len(wrapped) == 1 and sorted(wrapped[0]) == want and len(wrapped) + len(plain) == len(rets) and bool(plain)
         detail = "returns " + "; ".join(f"{norm(v)} when {cs}" for cs, v, _ in rets)
     chk.ob("R12.2", "interpret.BaseAccumulator.__check:condition", ok, ck.where,
            "the wrapper is installed exactly when a handler is given, checking is on and the selector has values: " + detail)
